@@ -3,5 +3,11 @@ CHECKS = [
     {'id': 'C16', 'technique': 'probe-driven exhaustive law monitor against Python code-point semantics, under ASan+UBSan',
      'text': 'Every Unicode scalar value and every string up to a small length over a 1-4 byte alphabet is pushed through the real uc_* helpers (and the regex engine\'s private decoders) in an ASan+UBSan probe and compared with Python\'s codec; plus random long strings and editing programs with a UTF-8 validity oracle. Exhaustive on the finite sub-domains, sampled beyond; held-on-observed, not proved.',
      'note': 'trusts Python\'s UTF-8 codec as reference; probe calls only functions declared in vi.h'},
+    {'id': 'C17', 'technique': 'probe-driven algebraic-law monitor (tiling, round-trip, neighbour laws) + table-driven width oracle over all code points, ASan+UBSan',
+     'text': 'ren_position/ren_pos/ren_off/ren_next/ren_cursor/ren_noeol of the real code are evaluated for all short lines over a 7-symbol alphabet (tabs, wide, zero-width, placeholder, RTL) and random long lines under many order/td/lim settings; the laws of the statement are asserted on the returned arrays; width classes of all 1.1M code points are compared with a linear search of the tables parsed from the source.',
+     'note': 'tables in uc.c/conf.h are taken as the specification of width classes; laws evaluated in Python on what the probe observed'},
+    {'id': 'C18', 'technique': 'probe-driven law monitor (permutation, run-reversal model from conf.h classes) + Unicode-decomposition oracle for shaping, ASan+UBSan',
+     'text': 'dir_reorder/dir_context/ren_position/uc_shape/ren_translate of the real code are evaluated on all short lines over an 8-symbol bidi alphabet and on random mixes for every textdirection value; results must be permutations with the terminator last, equal the run-reversal model where only letter runs are involved, and shaped letters must be the presentation form Unicode assigns for the joining context.',
+     'note': 'character classes read from conf.h; Unicode data from Python unicodedata; U+0649 exception documented'},
 ]
 NOT_BUILT = {}
